@@ -390,4 +390,84 @@ theorem methods_covered :
 theorem class_methods_covered :
     Coba.C13.Generated.rowViewClasses.all (fun c => allCovered c.2) = true := by decide
 
+/-! ## Phase 5 -/
+
+/-- `row.headers` on a table without header: the lazy row raises AttributeError (the class a plain list raises for `.headers`), through every pipeline -/
+theorem headers_error_class (b : DBase) (stages : List Stage) (e0 e : EagerD) (r : DRow)
+    (hb : eagerBaseD b = .ok e0) (he : eagerD stages e0 = .ok (some e))
+    (hr : buildD stages (baseD b) = .ok (some r)) (hn : e.hdr = none) :
+    r.headers = .error .attrError := headers_error_class' (dense_ref' b stages e0 e r hb he hr) hn
+
+/-- `==` looks at the lengths: a row view never equals a sequence of ANOTHER length, whatever the surplus cells are (in particular
+`None` / missing cells: the eager list `[4, None, None]` is not `[4]`) -/
+theorem dense_eq_length_sensitive (b : DBase) (stages : List Stage) (e0 e : EagerD) (r : DRow)
+    (hb : eagerBaseD b = .ok e0) (he : eagerD stages e0 = .ok (some e))
+    (hr : buildD stages (baseD b) = .ok (some r)) (o : List Val) (hl : o.length ≠ e.cells.length) :
+    r.eqList o = false := dense_eq_length_sensitive' (dense_ref' b stages e0 e r hb he hr) o hl
+
+/-- the hypothesis-free comparison is not the same function: padding the shorter side with `None` (`zip_longest`) equates `[4, None, None]`
+with `[4]` and `[1, 2]` with `[1, 2, None]`; the model's `==` does not (replayed on the real code: corpus family `eq-length`) -/
+theorem dense_eq_padded_counterexample :
+    eqPadded [.int 4, .none, .none] [.int 4] = true ∧ (DRow.plain [.int 4, .none, .none]).eqList [.int 4] = false ∧
+    eqPadded [.int 1, .int 2] [.int 1, .int 2, .none] = true ∧ (DRow.plain [.int 1, .int 2]).eqList [.int 1, .int 2, .none] = false := by decide +kernel
+
+/-- attribute forwarding does not depend on the depth of the wrapper chain: through ANY number of wrapping views without a `headers` slot of
+their own (EncodeDense, LabelDense, KeepDense over a header-less row) `headers` is the attribute of the row below, and `missing` through any
+wrapping views at all -/
+theorem forwarding_depth_independent (ws : List DWrap) (r : DRow) :
+    ((∀ w ∈ ws, w.transparent = true) → (wrapD ws r).headers = r.headers) ∧ (wrapD ws r).missing = r.missing :=
+  ⟨wrapD_headers' ws r, wrapD_missing' ws r⟩
+
+/-- sparse: `_inv` (the header map LabelRows reads) through any number of EncodeSparse / DropSparse / LabelSparse views, `missing` through any views -/
+theorem forwarding_depth_independent_sparse (ws : List SWrap) (r : SRow) :
+    ((∀ w ∈ ws, w.transparent = true) → (wrapS ws r).invOf = r.invOf) ∧ (wrapS ws r).missing = r.missing :=
+  ⟨wrapS_inv' ws r, wrapS_missing' ws r⟩
+
+/-- so LabelRows translates an integer label to the header name of the row at the bottom, however many views lie between -/
+theorem label_key_depth_independent (ws : List SWrap) (r : SRow) (h : ∀ w ∈ ws, w.transparent = true) (k : Key) (t : Option String) :
+    applyS (.label k t) (wrapS ws r) = .ok (some (.label (wrapS ws r) (labelKey r.invOf k) t)) :=
+  label_key_depth_independent' ws r h k t
+
+/-- the probe the driver and the harness run on every case (`EncodeRows({})` put on top d times) shows the same `headers`, `missing`, `len` / `_inv` at every depth -/
+theorem probe_depth_independent (d : Nat) (r : DRow) (s : SRow) :
+    ((probeD d r).headers = r.headers ∧ (probeD d r).missing = r.missing ∧ (probeD d r).len = r.len) ∧
+    ((probeS d s).invOf = s.invOf ∧ (probeS d s).missing = s.missing) := ⟨probeD_headers' d r, probeS_inv' d s⟩
+
+/-- non-vacuity: a header-mapped LazySparse below DropSparse, EncodeSparse, DropSparse: LabelRows(2) labels by the name 'c' -/
+example : (applyS (.label (.pos 2) none) (wrapS [.drop [.name "a"], .encode [] [], .drop [.name "b"]]
+      (.lazy (.loaded [(.pos 2, .int 5)]) [] [] [(.name "c", .pos 2)] [(.pos 2, .name "c")] false))).toOption.bind (fun o => o.map (fun r => r.labelVal.toOption)) =
+    some (some (Val.int 5)) := by decide
+
+/-- DropRows decides on the GIVEN row: the row predicate is evaluated before (and independently of) the column dropping; the result is either the
+predicate's error, no row, or exactly what `DropRows(cols)` without predicate builds -/
+theorem drop_row_sees_original (cols : List Key) (pred : Option Pred) (r : DRow) :
+    applyD (.drop cols pred) r =
+      (match evalPredD pred r with
+       | .error e => .error e
+       | .ok false => .ok none
+       | .ok true => applyD (.drop cols none) r) := drop_row_sees_original' cols pred r
+
+theorem drop_row_sees_original_sparse (cols : List Key) (pred : Option Pred) (r : SRow) :
+    applyS (.drop cols pred) r =
+      (match evalPredS pred r with
+       | .error e => .error e
+       | .ok false => .ok none
+       | .ok true => applyS (.drop cols none) r) := drop_row_sees_original_sparse' cols pred r
+
+/-- evaluating the predicate on the column-dropped view is another filter: `[1,'x',10]`, `DropRows([0], lambda r: r[1]=='x')` drops the row, the view's
+`r[1]` is 10 and keeps it; `{'a':1,'b':'x'}`, `DropRows(['a'], lambda r: r['a']==1)` drops the row, the view raises KeyError (replayed: corpus family `drop-pred`) -/
+theorem drop_row_on_view_counterexample :
+    rowDropped (applyD (.drop [.pos 0] (some (.cellEq (.pos 1) (.str "x")))) (.plain [.int 1, .str "x", .int 10])) = true ∧
+    rowKept (dropOnView [.pos 0] (some (.cellEq (.pos 1) (.str "x"))) (.plain [.int 1, .str "x", .int 10])) = true ∧
+    rowDropped (applyS (.drop [.name "a"] (some (.cellEq (.name "a") (.int 1)))) (.plain [(.name "a", .int 1), (.name "b", .str "x")])) = true ∧
+    rowRaised (dropOnViewS [.name "a"] (some (.cellEq (.name "a") (.int 1))) (.plain [(.name "a", .int 1), (.name "b", .str "x")])) = true := by decide +kernel
+
+/-- translator obligation: the guard of `__getattr__` in each of the four base classes is `attr == '_row'` (so `_inv`, `_fwd`, `headers`, `missing`, `feats`,
+`label` … are forwarded), and each concrete row-view class defines `__len__` / `__iter__` itself and leaves `__eq__` / `__getattr__` to its base class -/
+theorem getattr_guard_extracted :
+    Coba.C13.Generated.getattrGuards = baseClasses.map (fun c => (c, forwardGuard.1, forwardGuard.2)) ∧
+    forwarded "_inv" = true ∧ forwarded "headers" = true ∧ forwarded "missing" = true ∧ forwarded "_row" = false := by decide
+
+theorem protocol_table_extracted : Coba.C13.Generated.protocolTable = protocolTable := by decide
+
 end Coba.C13
